@@ -173,7 +173,7 @@ PROPS = {
         ],
         "ties": ["BPT.Tie.rust_null_node", "BPT.Tie.rust_default_capacity"],
         "suites": [
-            {"kind": "rust", "suite": "tree-deep", "quick": {"cases": 1, "len": 60000}, "thorough": {"cases": 4, "len": 750000}},
+            {"kind": "rust", "suite": "tree-deep", "quick": {"cases": 1, "len": 150000}, "thorough": {"cases": 4, "len": 750000}},
             {"kind": "rust", "suite": "tree-exh", "quick": {"cases": 8192, "len": 3}, "thorough": {"cases": 65536, "len": 4}},
             {"kind": "rust", "suite": "tree-ops",
              "quick": {"cases": 500, "len": 300}, "thorough": {"cases": 3000, "len": 400}},
@@ -200,6 +200,7 @@ PROPS = {
         "suites": [
             {"kind": "rust", "suite": "tree-api",
              "quick": {"cases": 480, "len": 150}, "thorough": {"cases": 1500, "len": 200}},
+            {"kind": "rust", "suite": "tree-deep", "quick": {"cases": 1, "len": 100000}, "thorough": {"cases": 4, "len": 750000}},
         ],
         "nontrivial": "case 0 enumerates new(c)/empty(c) for every c in 0..=4096 (complete); the other cases mix checked and basic calls — non-trivial when both an `ok` and an `err` answer occur; distinct = distinct op-line sequences",
         "trusted_extra": ["the wrapper models (BPT/Rust/Checked.lean) are a hand transcription of the wrappers' source text; the text is pinned by the tie lemmas rust_src_*_eq (any edit of a wrapper breaks one) and the same model functions are run against the crate call by call", "`Small` (arenas below 2^32 slots) is assumed of the states a call passes through; the limit itself is C16"],
@@ -298,6 +299,7 @@ PROPS = {
                  "BPT.Tie.rust_src_validate_eq", "BPT.Tie.rust_src_validate_for_operation_eq"],
         "suites": [
             {"kind": "rust", "suite": "tree-damage", "quick": {"cases": 2000, "len": 60}, "thorough": {"cases": 14000, "len": 120}},
+            {"kind": "rust", "suite": "tree-deep", "quick": {"cases": 1, "len": 40000}, "thorough": {"cases": 4, "len": 750000}},
         ],
         "nontrivial": "each case builds a valid multi-level map, injects ONE precise kind of damage (14 kinds: unsorted, duplicate, count mismatch, over capacity, underfull, emptied node, key outside interval, arity, dangling child, chain skip / truncate / misorder / dangling, orphan allocated leaf) at a generated node/position and runs every validator plus try_insert/try_remove; non-trivial when the damage applied to a map with a branch root; distinct = distinct op-line sequences; the per-kind counts are under structural_events",
         "trusted_extra": ["`detailed_sound` (chain = tree leaves in order, no allocated node unreachable) assumes the per-node capacity fields are intact (`CapsIntact`: every stored leaf's own `capacity` equals the map's, which is >= 2); no documented damage kind touches them, and without it an emptied leaf with a forged capacity field can sit anywhere in the chain unnoticed (the validators compare occupancy with the node's own field)", "a cyclic chain makes the real validators loop forever; the model returns `diverge`, which the theorems count as 'not Ok(())' (the property restricts chain damage to acyclic chains)"],
